@@ -197,7 +197,7 @@ def task_scalar(p, cells, variant, rational):
             chk.add("operand-unchanged", same_state(sa, snapshot(A_)), "operand not modified")
 
         out += H.run_paths(ctx, fn, "S-con", "A=p%d/%s,kv=%d,%s,%s" % (p, "".join(map(str, cells)), variant, label, "rat" if rational else "pol"),
-                           dict(kind="c08.scalar", p=p, cells=cells, variant=variant, op=label, rational=rational), body)
+                           dict(kind="c08.scalar", p=p, cells=cells, variant=variant, op=label, rational=rational, task=("c08", "task_scalar", [p, cells, variant, rational])), body)
     # vector-valued points: M @ A, A @ M, A @ B (dot product) on 2-D points
     if not rational:
         pn = ["A%d_%d" % (i, d) for i in range(n) for d in range(2)]
@@ -231,7 +231,7 @@ def task_scalar(p, cells, variant, rational):
                 chk.identities("pointwise:" + label, prs)
 
         out += H.run_paths(ctx, "curves.BaseCurve.__rmatmul__", "S-con", "A=p%d/%s,kv=%d,matrix" % (p, "".join(map(str, cells)), variant),
-                           dict(kind="c08.matrix", p=p, cells=cells, variant=variant, rational=False), body_m)
+                           dict(kind="c08.matrix", p=p, cells=cells, variant=variant, rational=False, task=("c08", "task_scalar", [p, cells, variant, False])), body_m)
     return out
 
 
@@ -255,7 +255,7 @@ def task_interval(variant):
             except Exception as e:
                 chk.add("different-interval:" + label, False, "expected ValueError, got %s" % type(e).__name__)
 
-    out += H.run_paths(ctx, "curves.BaseCurve.__add__", "S-con", "kv=%d,intervals" % variant, dict(kind="c08.interval", variant=variant), body)
+    out += H.run_paths(ctx, "curves.BaseCurve.__add__", "S-con", "kv=%d,intervals" % variant, dict(kind="c08.interval", variant=variant, task=("c08", "task_interval", [variant])), body)
     return out
 
 
@@ -330,6 +330,8 @@ def replay(o):
                 if R(u) != exp:
                     return True, dict(A=(U, PA), B=(V, PB), u=u, value=exp), dict(value=R(u))
         return False, "pointwise", "ok"
+    if w.get("task"):
+        return H.generic_replay(o)
     return False, "see verifier output", "not replayed concretely"
 
 
